@@ -436,11 +436,25 @@ def step (s : DState) (line : String) : DState × String :=
     match TextProto.stringOfHex h with
     | some t => (s, JsonProto.restoreText t)
     | none => bad s line
+  | ["pkg.raw", _] => (s, "raw")
   | "judge.C17" :: ty :: v :: out => (s, if joinWith " " out == "ok " ++ v then "J C17 ok" else "J C17 bad json-round-trip " ++ ty)
-  | "judge.C09" :: orig :: out =>
-    -- a restore that succeeds must yield exactly the content that was snapshotted
+  | "judge.C09" :: orig :: fhex :: out =>
+    /- a restore may succeed only if the (damaged) text still is a package with the supported version
+       whose checksum matches its content; what it yields must be that content, and a content other
+       than the snapshotted one under an unchanged checksum is a collision -/
     (s, match out with
-      | ["restored", "ok", c] => if c == orig then "J C09 ok" else "J C09 bad accepted-a-package-with-different-content"
+      | ["restored", "ok", c] =>
+        (match (TextProto.stringOfHex fhex).bind (fun t => J.parseJson t.toList) with
+         | none => "J C09 bad accepted-a-text-that-is-not-a-json-document"
+         | some j =>
+           match J.decPackage j with
+           | .error _ => "J C09 bad accepted-a-document-that-is-not-a-package"
+           | .ok p =>
+             if p.version != formatVersion then "J C09 bad accepted-unsupported-version " ++ toString p.version
+             else if J.sha (J.ser p.snapshot) != p.checksum then "J C09 bad accepted-checksum-mismatch"
+             else if c != JsonProto.levelContent (Level.fromSnapshot p.snapshot) then "J C09 bad restored-content-differs-from-the-package"
+             else if c != orig then "J C09 bad accepted-a-package-with-different-content"
+             else "J C09 ok")
       | "restored" :: "err" :: _ => "J C09 ok"
       | _ => "J C09 bad " ++ joinWith " " out)
   | ["read", _] => (s, "read")
